@@ -10,7 +10,7 @@ def section(notes, letter):
     parts = re.split(r"^## ", notes, flags=re.M)[1:]
     if not parts:
         return "", ""
-    want = 0 if letter in "ACEGIKM" else 1
+    want = 0 if letter in "ACEGIKMOQS" else 1
     p = parts[min(want, len(parts) - 1)]
     title = p.splitlines()[0]
     title = re.sub(r"^[A-Z]\s*[-:—]+\s*", "", title).strip()
